@@ -218,6 +218,23 @@ fn gen_tuple(rng: &mut Rng, arity: usize, earlier: &[Vec<String>]) -> Vec<String
         return rng.pick(earlier).clone();
     }
     let mut t: Vec<String> = Vec::new();
+    if arity >= 2 && rng.chance(1, 12) {
+        // "length twins": two tuples whose values, each written behind a one-byte (or wrapped) length, give the
+        // same bytes - (a, Y*255 A Z*65) and (aA Y*255, Z*65): 321 and 257 are 65 ('A') and 1 modulo 256. A key
+        // built from length-prefixed values instead of separated ones must still tell them apart; the second
+        // twin is drawn when the first is already among the earlier tuples.
+        let y: String = std::iter::repeat('y').take(255).collect();
+        let z: String = std::iter::repeat('z').take(65).collect();
+        let first = vec!["a".to_string(), format!("{}A{}", y, z)];
+        let second = vec![format!("aA{}", y), z.clone()];
+        let at = 0;
+        let have_first = earlier.iter().any(|e| e.len() >= 2 && e[at] == first[0] && e[at + 1] == first[1]);
+        let pair = if have_first { second } else { first };
+        for i in 0..arity {
+            t.push(if i < 2 { pair[i].clone() } else { String::new() });
+        }
+        return t;
+    }
     if rng.chance(1, 6) {
         // long values of equal length that differ only somewhere in the middle (or at the ends)
         for _ in 0..arity {
